@@ -1217,3 +1217,14 @@ V("C02", "xtc-skip-buffer-sized-for-selection", "mdtraj/formats/xtc/xtc.pyx", " 
 V("C02", "twin-xtc-skip-buffer-renamed", "mdtraj/formats/xtc/xtc.pyx", None, None, None, edits=[("xyz_stride", "skipped_frame")], count="all")
 V("C12", "keywords-caseless", "mdtraj/core/selection.py", "            return MatchFirst([Keyword(kw) for kw in kws])", "            return MatchFirst([CaselessKeyword(kw) for kw in kws])", "C12-R7")
 V("C12", "twin-keywords-explicitly-case-sensitive", "mdtraj/core/selection.py", "            return MatchFirst([Keyword(kw) for kw in kws])", "            return MatchFirst([Keyword(kw, caseless=False) for kw in kws])", None)
+
+# ---------------------------------------------------------------- C04-R9 rebuilders on a model topology
+TOPF_ = "mdtraj/core/topology.py"
+V("C04", "copy-drops-bond-order", TOPF_, "            out.add_bond(atom_mapping[a1], atom_mapping[a2], type=bond.type, order=bond.order)\n\n        return out\n\n    def __copy__",
+  "            out.add_bond(atom_mapping[a1], atom_mapping[a2], type=bond.type)\n\n        return out\n\n    def __copy__", "C04-R9", "Topology.copy")
+V("C04", "join-resseq-continues-one-late", TOPF_, "                    out_resSeq += 1\n                r = out.add_residue(residue.name, c, out_resSeq, residue.segment_id)",
+  "                    out_resSeq += 1\n                r = out.add_residue(residue.name, c, out_resSeq + 1, residue.segment_id)", "C04-R9", "Topology.join")
+V("C04", "subset-keeps-empty-chains", TOPF_, "    newTopology._chains = [c for c in newTopology._chains if len(c._residues) > 0]", "    newTopology._chains = list(newTopology._chains)", "C04-R9", "Topology.subset")
+V("C04", "twin-copy-mapping-renamed", TOPF_, None, None, None, edits=[("                    atom_mapping[atom] = out.add_atom(atom.name, atom.element, r, serial=atom.serial)\n\n        for bond in self.bonds:\n            a1, a2 = bond\n            out.add_bond(atom_mapping[a1], atom_mapping[a2], type=bond.type, order=bond.order)",
+  "                    new_atom = out.add_atom(atom.name, atom.element, r, serial=atom.serial)\n                    old_to_new[atom] = new_atom\n\n        for first, second in self.bonds:\n            pass\n        for bond in self.bonds:\n            out.add_bond(old_to_new[bond[0]], old_to_new[bond[1]], order=bond.order, type=bond.type)"),
+  ("        out = Topology()\n        atom_mapping = {}\n        for chain in self.chains:\n            c = out.add_chain(chain.chain_id)", "        out = Topology()\n        old_to_new = {}\n        for chain in self.chains:\n            c = out.add_chain(chain.chain_id)")])
